@@ -1,5 +1,7 @@
 """C08 — index well-formedness and index/storage agreement over real multi-daemon histories (runner shared with C07)."""
 import json
+import os
+import re
 import random
 
 import common
@@ -9,11 +11,57 @@ from props import c07
 MODULE = "Alpen.Props.C08"
 
 
+def corpus_import_delete_race(e):
+    """regression corpus (known finding F21): a released copy is being deleted by one worker while another worker imports the
+    same file on the same node (an operator's import request): up to 150 seeded two-worker schedules of that one pass"""
+    import dharness
+    import world as worldmod
+    for trial in range(150):
+        rng = random.Random(f"import-delete-race-{trial}")
+        case = dharness.DWorld.__new__(dharness.DWorld)
+        w = worldmod.World(e)
+        db = w.db
+        for m in (db.StorageTransferAction, db.ArchiveFileCopyRequest, db.ArchiveFileImportRequest, db.ArchiveFileCopy,
+                  db.ArchiveFile, db.ArchiveAcq, db.StorageNode, db.StorageGroup):
+            m.delete().execute()
+        import shutil
+        shutil.rmtree(os.path.join(e.tmp, "roots"), ignore_errors=True)
+        g1, g2, g3 = w.group("g1"), w.group("g2"), w.group("g3")
+        n1, a1, a2 = w.node("n1", g1, stype="F"), w.node("a1", g2, stype="A"), w.node("a2", g3, stype="A")
+        f = w.file(w.acq("acq"), "sub/f0.dat", b"payload payload")
+        w.copy(f, n1, has="Y", wants="N")
+        w.copy(f, a1, has="Y")
+        w.copy(f, a2, has="Y")
+        db.ArchiveFileImportRequest.create(node=n1, path="acq/sub/f0.dat", recurse=False, register=True)
+        case.env, case.rng, case.w = e, rng, w
+        case.hosts = ["h1"]
+        case.daemons = {"h1": (worldmod.PersistentDaemon if dharness.verif_persistent(e) else worldmod.Daemon)(e, "h1")}
+        case.marker_state = {x.id: "ok" for x in (n1, a1, a2)}
+        case.tracked, case.view, case.initq = set(), {}, {}
+        case.nodes, case.groups, case.files = [n1, a1, a2], [g1, g2, g3], [f]
+        case.rich = case.multi = case.churn = case.hsm = False
+        case.set_tools("none", "ok")
+        try:
+            case.iterate("h1")
+            ran, schedule, excs = case.concurrent_drain("h1", rng, nw=2)
+        finally:
+            case.close()
+            os.environ["PATH"] = "/usr/local/bin:/usr/bin:/bin"
+        c = db.ArchiveFileCopy.get(file=f, node=n1)
+        if c.has_file == "Y" and w.file_on(n1, f) is None:
+            return [f"two workers ran {ran} with schedule {''.join(map(str, schedule))}: the delete task unlinked acq/sub/f0.dat on n1 and "
+                    f"recorded it removed, then the import task of the same file (which had found the file on disk earlier) recorded the "
+                    f"copy healthy and wanted: has_file={c.has_file} wants_file={c.wants_file}, file on disk: no"]
+    return []
+
+
 def run(ctx):
     ok = common.proof_stage(ctx, MODULE)
     rng = ctx.rng
     nh = 60 if ctx.quick() else 2000
     with envmod.Env(dbfile=True) as e:     # file database: persistent daemon loops and two-worker passes need threads
+        for p in corpus_import_delete_race(e):
+            ctx.violation("import-delete-race", p, {"kind": "corpus", "name": "import vs delete of one file by two workers"})
         for i in range(nh):
             hseed = f"{ctx.prop}-{ctx.seed}-h{i}"
             hr = random.Random(hseed)
@@ -23,6 +71,12 @@ def run(ctx):
             ctx.count("history:tasks", sum(1 for l in log if l.startswith("task")))
             for item in p8:
                 p, ctxlog = item if isinstance(item, tuple) else (item, log[-6:])
+                last2w = next((l for l in reversed(ctxlog) if l.startswith("tasks ")), "")
+                m_ = re.search(r"but file (\S+) is not on node (\S+)", p)
+                if m_ and "recorded healthy and wanted" in p and "Delete copies" in last2w and f"Import acq/{m_.group(1)} on {m_.group(2)}" in last2w:
+                    ctx.violation("import-delete-race", p + " [two-worker pass: " + last2w[:200] + "]",
+                                  {"kind": "dhistory", "hseed": hseed, "last_steps": ctxlog, "history": log})
+                    continue
                 ctx.violation("index:" + p[:40].replace(" ", "_"), p, {"kind": "dhistory", "hseed": hseed, "last_steps": ctxlog, "history": log})
     ctx.coverage["rule"] = ("same multi-daemon histories as C07; after every step the real index and all node trees are checked: unique "
                             "(file,node) and (acq,name), legal states, completed request => ordered timestamps and a copy in its group, "
@@ -37,6 +91,12 @@ def replay(ctx, path):
     """re-run the recorded history (same per-history seed) on the current tree and report what the oracle says now"""
     d = json.load(open(path))
     print(json.dumps({k: d[k] for k in d if k != "history"}, indent=1)[:3000])
+    if d.get("kind") == "corpus":
+        with envmod.Env(dbfile=True) as e:
+            probs = corpus_import_delete_race(e)
+        for p in probs:
+            print("VIOLATION-REPRODUCED:", p)
+        return 1 if probs else 0
     if "hseed" not in d:
         return 1
     with envmod.Env(dbfile=True) as e:
